@@ -76,23 +76,34 @@ Definition sched_nodelayed : list (N * choice) :=
 Definition sched_second : list (N * choice) :=
   sched_nodelayed ++ [ (1, COp (OpFree b01 false)); (1, CGo); (1, CGo) ].
 
-Example ex_freeing_full_page_spurious :
-  exists c, run init sched_freeing = Some (Ok c)
-    /\ pg_flag (getp c 0) = Freeing /\ pg_full (getp c 0) = true /\ in_window c 1 0 = true
-    /\ tlog (Ok (match run init (sched_setup ++ [(1, COp (OpFree b00 false)); (1, CGo)]) with Some (Ok c0) => c0 | _ => c end)) 1 CAlt
-       = Some (mkEv EvCasFail (LTF 0) (AvTF UseD []) (AvTF UseD []))
-    /\ inv_b c = true.
-Proof. vm_compute. eexists. repeat split. Qed.
+(* Examples are closed boolean computations (nothing is computed under a binder) *)
+Definition after (sched : list (N * choice)) (f : cfg -> bool) : bool :=
+  match run init sched with Some (Ok c) => f c | _ => false end.
+Definition beq_bl (a b : list bid) : bool := Nat.eqb (length a) (length b) && forallb (fun x => mem_bid x b) a.
+
+(* flag DELAYED_FREEING occurs, on a page that is in the full queue (its first remote free), thread 1 is in the window *)
+Example ex_freeing_full_page :
+  after sched_freeing (fun c => flag_eqb (pg_flag (getp c 0)) Freeing && pg_full (getp c 0) && in_window c 1 0 && inv_b c) = true.
+Proof. vm_compute. reflexivity. Qed.
+
+(* the third step of thread 1 in that schedule is a spurious failure of the weak CAS (the word had not changed) *)
+Example ex_spurious_cas_failure :
+  after (sched_setup ++ [(1, COp (OpFree b00 false)); (1, CGo)])
+        (fun c => match tlog (Ok c) 1 CAlt, tlog (Ok c) 1 CGo with
+                  | Some (mkEv EvCasFail (LTF 0) (AvTF UseD []) (AvTF UseD [])),
+                    Some (mkEv EvCasOk (LTF 0) (AvTF UseD []) (AvTF Freeing [])) => true
+                  | _, _ => false end) = true.
+Proof. vm_compute. reflexivity. Qed.
 
 Example ex_no_delayed :
-  exists c, run init sched_nodelayed = Some (Ok c)
-    /\ pg_flag (getp c 0) = NoD /\ hp_del (geth c 0) = [b00] /\ th_stk (gett c 1) = [] /\ inv_b c = true.
-Proof. vm_compute. eexists. repeat split. Qed.
+  after sched_nodelayed (fun c => flag_eqb (pg_flag (getp c 0)) NoD && beq_bl (hp_del (geth c 0)) [b00]
+                                  && isnil (th_stk (gett c 1)) && inv_b c) = true.
+Proof. vm_compute. reflexivity. Qed.
 
 Example ex_direct_push :
-  exists c, run init sched_second = Some (Ok c)
-    /\ pg_flag (getp c 0) = NoD /\ pg_tf (getp c 0) = [b01] /\ pg_used (getp c 0) = 2 /\ inv_b c = true.
-Proof. vm_compute. eexists. repeat split. Qed.
+  after sched_second (fun c => flag_eqb (pg_flag (getp c 0)) NoD && beq_bl (pg_tf (getp c 0)) [b01]
+                               && (pg_used (getp c 0) =? 2) && inv_b c) = true.
+Proof. vm_compute. reflexivity. Qed.
 
 Example ex_reachable : forall c, run init sched_second = Some (Ok c) -> reachable (Ok c).
 Proof. intros c H. exact (run_reachable init sched_second (Ok c) reach_init H). Qed.
